@@ -7,6 +7,7 @@ import numpy as np
 from .. import build, core, drv, par
 from ..mjconst import E
 from ..ref import convex as cx
+from ..ref import mechanisms as mech
 from ..ref import primdist
 
 LEVEL = "exploration"
@@ -42,6 +43,17 @@ ASSUMPTIONS = [
     "undefined and the colliders fall back to cross(z1,z2) or (1,0,0); only unit length is required there (counted)",
     "pairs without a closed form here (ellipsoid/cylinder against non-plane, capsule-cylinder) get the universal contact invariants and "
     "the mj_geomDistance symmetry/agreement checks only; their distances are C15's subject",
+    "known open findings (findings/C13-*.md, findings/C15-*.md) do not switch any comparison off: every comparison is made in every pose; a "
+    "violation is relabelled with a listed mechanism only if (i) the failed comparison is in that mechanism's explicit list (LISTED, "
+    "mirrored by known_findings.json) and (ii) the mechanism is CONFIRMED for that violation from the engine's own output "
+    "(vf/ref/mechanisms.py): the wrong value equals the value of the re-implemented defective formula (capsule-capsule parallel "
+    "branch behind |det| < mjMINVAL; capsule-box: exact sphere-box contact of a sphere on the capsule axis while the axis segment "
+    "meets the box; box-box: gap along one of the 15 axes = largest separating-axis gap < distance; plane-capsule: frame = (normal; "
+    "(1,0,0); cross)), or the engine's own branch condition holds with its constants and a counterfactual engine run is right "
+    "(capsule-box: D^2 >= margin + 2*sizes and mj_geomDistance with a larger distmax returns the truth; sub-0.2mm capsule-box: "
+    "skipped edge pair with det < mjMINVAL and the same pose scaled x1000 has no violation), or (native GJK) centres closer than "
+    "ccd_tolerance and distance exactly 0 / true distance within 2*ccd_tolerance of zero (of the margin, for the inflated contact "
+    "path) and the failed comparison is contact-vs-mj_geomDistance or argument-order symmetry. Anything else is a VIOLATION",
     "libccd and qhull are absent in this build: mjDSBL_NATIVECCD is never set; mesh geoms are not used by this check",
     "the design's 'global monitor in the driver for every workload of the framework' is not installed (vf/drv.py is a core file); the "
     "universal invariants are asserted on every contact produced by this check's own workloads",
@@ -374,8 +386,14 @@ def universal_checks(P, S, obs, scale, viol, A=None, B=None):
         e = float(np.abs(F @ F.T - np.eye(3)).max())
         P.note_max("frame_orthonormality_err", e)
         if e > 1e-9:
-            # mechanism: plane-capsule hands the capsule axis to mju_makeFrame as tangent; when it is parallel to the normal ...
-            along = A is not None and A.kind == cx.PLANE and B.kind == cx.CAPSULE and abs(abs(float(A.R[:, 2] @ B.axis)) - 1) < 1e-12
+            # listed mechanism (findings/C13-plane-capsule-frame-not-orthonormal.md): plane-capsule hands the capsule axis to
+            # mju_makeFrame as tangent; when it is parallel to the normal the projected tangent vanishes and mju_normalize3
+            # substitutes (1,0,0).  Confirmed only if the axis IS parallel to the plane normal and the frame is exactly
+            # (plane normal; (1,0,0); their cross product), i.e. nothing but the missing re-orthogonalisation is wrong
+            # (second facet: the axis is ALMOST parallel, angle theta < 1e-6: the projected tangent keeps ~1e-16 of rounding and is
+            # normalised, <normal, tangent> ~ 1e-16/theta; confirmed when that scalar product, bounded by 1e-15/theta, is the only defect)
+            along = (A is not None and A.kind == cx.PLANE and B.kind == cx.CAPSULE and abs(abs(float(A.R[:, 2] @ B.axis)) - 1) < 1e-12
+                     and (mech.frame_is_x_fallback(F, A.R[:, 2]) or mech.frame_is_projected_near_parallel_tangent(F, A.R[:, 2], B.axis)))
             viol(("plane-capsule-axis-along-normal:" if along else "") + "contact-frame-not-orthonormal", contact=i, err=e, frame=F)
         if k["dist"] > mg + 1e-12 * max(scale, mg):
             viol("contact-dist-exceeds-margin", contact=i, dist=k["dist"], margin=S.margin, gap=S.gap)
@@ -411,40 +429,28 @@ def canonical(S, obs):
     return (0, 1) if S.gid[0] < S.gid[1] else (1, 0)
 
 
-def capsule_parallel_mechanism(A, B, mg, obs, kA):
-    """classify poses that exercise the parallel-axes branch of the capsule-capsule collider in the way described in
-    findings/C13-capsule-capsule-parallel-branch.md (classification only; the verdict logic is unchanged)"""
-    a1, a2 = A.axis * A.size[1], B.axis * B.size[1]
-    det = float(a1 @ a1) * float(a2 @ a2) - float(a1 @ a2) ** 2
-    if abs(det) >= 1e-15:            # mjMINVAL: the (absolute) branch condition in mjraw_CapsuleCapsule
-        return ""
-    st = float(np.linalg.norm(np.cross(A.axis, B.axis)))
-    if st > 1e-9:
-        return "capsule-capsule-parallel-branch:nonparallel-axes:"
-    # parallel: the defect needs the projected span of one segment to lie strictly inside the other's (both partner points clipped)
-    def nested(X, Y):
-        c = float(Y.size[1])
-        ts = [float((X.pos + sg * X.axis * X.size[1] - Y.pos) @ Y.axis) for sg in (1, -1)]
-        return min(ts) < -c * (1 + 1e-12) and max(ts) > c * (1 + 1e-12)
-    if nested(A, B) or nested(B, A):
-        return "capsule-capsule-parallel-branch:nested-spans:"
-    return ""
-
-
-def capsule_box_mechanism(A, B, mg=None, distmax=None):
-    """the capsule's axis segment meets the box (both end points inside, or piercing it): the legacy collider only considers end
-    points and box edges as nearest features (findings/C13-capsule-box-segment-meets-box.md); or the segment is so far from the box
-    that its squared distance exceeds the initial 'best distance', which is a length (findings/C13-capsule-box-far-initial-bestdist.md)"""
-    D, _ = primdist._seg_box_dist(B.local(A.pos), (A.axis * A.size[1]) @ B.R, B.size[:3])
-    if D <= 1e-12 * B.extent():
-        return "capsule-box-segment-meets-box:"
-    # edge pairs are skipped when size_j^2 * halflength^2 * sin^2 < mjMINVAL (absolute, units length^4): sub-0.2mm geoms
-    if float(A.size[1]) ** 2 * float(B.size[:3].min()) ** 2 < 1e-14:
-        return "capsule-box-small-absolute-threshold:"
-    init = 2 * float(A.size[0] + A.size[1] + B.size[:3].sum())
-    if mg is not None and (D * D >= 0.999 * (min(mg, distmax) + init)) and D - A.size[0] < max(mg, distmax):
-        return "capsule-box-far-initial-bestdist:"
-    return ""
+# ---- listed mechanisms: a violation is relabelled only after the mechanism has been CONFIRMED for that very violation ------------------
+# mechanism -> check names (first component of the generic signature) that the confirmation test of the mechanism covers.  These
+# lists mirror the open C13 entries of known_findings.json one to one; everything else keeps its generic signature = VIOLATION.
+_CONTACT_CHECKS = ("contact-dist-differs-from-true-distance", "contact-normal-does-not-realise-distance",
+                   "contact-normal-differs-from-true-normal", "contact-pos-not-between-surfaces")
+LISTED = {
+    "capsule-capsule-parallel-branch:nested-spans": ("geomDistance-not-symmetric", "geomDistance-differs-from-true-distance",
+                                                     "geomDistance-differs-from-contact-dist") + _CONTACT_CHECKS,
+    "capsule-capsule-parallel-branch:nonparallel-axes": ("geomDistance-not-symmetric", "geomDistance-differs-from-true-distance",
+                                                         "geomDistance-differs-from-contact-dist", "geomDistance-fromto-not-reversed-on-swap") + _CONTACT_CHECKS,
+    "capsule-box-segment-meets-box": ("no-contact-although-distance-below-margin", "geomDistance-differs-from-true-distance",
+                                      "geomDistance-differs-from-contact-dist", "contact-deeper-than-geometry-along-its-normal",
+                                      "contact-normal-points-from-geom2-to-geom1") + _CONTACT_CHECKS,
+    "capsule-box-far-initial-bestdist": ("no-contact-although-distance-below-margin", "geomDistance-differs-from-true-distance",
+                                         "geomDistance-differs-from-contact-dist"),
+    "capsule-box-small-absolute-threshold": ("no-contact-although-distance-below-margin", "geomDistance-differs-from-true-distance"),
+    "box-box-separated-vertex-features": ("no-contact-although-distance-below-margin", "contact-dist-differs-from-true-distance",
+                                          "geomDistance-differs-from-contact-dist", "contact-normal-does-not-realise-distance",
+                                          "contact-pos-not-between-surfaces"),
+    "ccd-coincident-centres": ("geomDistance-differs-from-true-distance", "geomDistance-differs-from-contact-dist"),
+    "ccd-touching-within-tolerance": ("geomDistance-differs-from-contact-dist", "geomDistance-not-symmetric"),
+}
 
 
 def ccd_coincident_centres(A, B, tol):
@@ -453,24 +459,218 @@ def ccd_coincident_centres(A, B, tol):
     return float(np.linalg.norm(A.pos - B.pos)) <= tol
 
 
-def check_pose(P, S, obs, distmax, tag, witness, tol_contact=None, tol_gd=None, sink=None):
+def scaled_twin_ok(S, K, distmax):
+    """counterfactual for absolute-threshold mechanisms: the same two geoms in the same relative pose, every length multiplied by K.
+    True iff the engine is right (no violation of any kind, listed or not) on the scaled twin"""
+    c2 = json.loads(json.dumps(S.c))
+    for gk in c2["geoms"]:
+        if gk["type"] != "plane":
+            gk["size"] = [float(x) * K for x in gk["size"]]
+        gk["margin"], gk["gap"] = gk["margin"] * K, gk["gap"] * K
+        if gk.get("off_pos") is not None:
+            gk["off_pos"] = [float(x) * K for x in gk["off_pos"]]
+    for f in ("static_pos",):
+        c2[f] = [float(x) * K for x in c2[f]]
+    c2["pair_margin"], c2["pair_gap"], c2["scale"] = c2["pair_margin"] * K, c2["pair_gap"] * K, c2["scale"] * K
+    try:
+        S2 = Scene(S.L, c2)
+        S2.d.forward()
+        for k in (0, 1):
+            X = S.shape(k)
+            if S2.movable(k):
+                S2.set_geom_pose(k, X.pos * K, mat2quat(X.R))
+        obs2 = observe(S2, distmax * K)
+        sink2 = []
+        check_pose(core.Part(), S2, obs2, distmax * K, "twin", {}, sink=sink2, allow_twin=False)
+    except drv.MjError:
+        return False
+    # the twin must really be the same configuration (static bodies cannot be moved: their pose is scaled through the case)
+    for k in (0, 1):
+        X, X2 = S.shape(k), S2.shape(k)
+        if float(np.abs(X2.pos - X.pos * K).max()) > 1e-9 * K * (1 + float(np.abs(X.pos).max())) or float(np.abs(X2.R - X.R).max()) > 1e-9:
+            return False
+    return not sink2
+
+
+def build_mechanisms(P, S, A, B, obs, ref, distmax, mg, scale, ext, tolc, tolg, con, gdA, gdB, ftA, ftB, allow_twin=True):
+    """-> list of (mechanism prefix, test) for this pose; test(check_name) -> bool runs the confirmation of that mechanism for that
+    check from the engine's own output (results cached).  Region counters `poses_<mechanism>` count poses that meet the
+    structural precondition of a mechanism (not relabelled violations)."""
+    out = []
+    cache = {}
+
+    def once(key, fn):
+        if key not in cache:
+            cache[key] = bool(fn())
+        return cache[key]
+    pair = (A.kind, B.kind)
+    c = S.c
+    ccd_tol = float(c.get("ccd_tolerance", 1e-6))
+    isbox = pair == (cx.BOX, cx.BOX)
+
+    # -- capsule-capsule: findings/C13-capsule-capsule-parallel-branch.md
+    if pair == (cx.CAPSULE, cx.CAPSULE):
+        a1, a2 = A.axis * A.size[1], B.axis * B.size[1]
+        if abs(mech.capsule_det(a1, a2)) < float(E.mjMINVAL):           # the engine's (absolute) branch condition
+            st = float(np.linalg.norm(np.cross(A.axis, B.axis)))
+
+            def nested(X, Y):
+                cc = float(Y.size[1])
+                ts = [float((X.pos + sg * X.axis * X.size[1] - Y.pos) @ Y.axis) for sg in (1, -1)]
+                return min(ts) < -cc * (1 + 1e-12) and max(ts) > cc * (1 + 1e-12)
+            facet = "nonparallel-axes" if st > 1e-9 else ("nested-spans" if (nested(A, B) or nested(B, A)) else None)
+            if facet:
+                name = "capsule-capsule-parallel-branch:" + facet
+                P.count("poses_" + name)
+                tl = 1e-12 * scale
+                rA, rB = float(A.size[0]), float(B.size[0])
+                okc = lambda: once("cc_c", lambda: mech.contacts_equal(con, mech.capsule_parallel_branch(A.pos, a1, rA, B.pos, a2, rB, mg, A.axis, B.axis), tl, scale, rA))
+                okab = lambda: once("cc_ab", lambda: mech.geomdist_equal(gdA, mech.capsule_parallel_branch(A.pos, a1, rA, B.pos, a2, rB, distmax, A.axis, B.axis), distmax, tl))
+                okba = lambda: once("cc_ba", lambda: mech.geomdist_equal(gdB, mech.capsule_parallel_branch(B.pos, a2, rB, A.pos, a1, rA, distmax, B.axis, A.axis), distmax, tl))
+                okft = lambda: once("cc_ft", lambda: mech.geomdist_equal(gdA, mech.capsule_parallel_branch(A.pos, a1, rA, B.pos, a2, rB, distmax, A.axis, B.axis), distmax, tl, ftA, scale, rA)
+                                    and mech.geomdist_equal(gdB, mech.capsule_parallel_branch(B.pos, a2, rB, A.pos, a1, rA, distmax, B.axis, A.axis), distmax, tl, ftB, scale, rB))
+
+                def test(chk):
+                    # the engine's value(s) that entered the failed comparison must be exactly what the parallel-branch formula yields
+                    if chk == "geomDistance-not-symmetric":
+                        return okab() and okba()
+                    if chk == "geomDistance-fromto-not-reversed-on-swap":
+                        return okft()           # both witness segments are those of the branch's end-point candidates
+                    if chk == "geomDistance-differs-from-true-distance":
+                        return okab()
+                    if chk == "geomDistance-differs-from-contact-dist":
+                        return okab() and okc()
+                    return okc()
+                out.append((name, test))
+
+    # -- capsule-box: three findings
+    if pair == (cx.CAPSULE, cx.BOX):
+        D, _ = primdist._seg_box_dist(B.local(A.pos), (A.axis * A.size[1]) @ B.R, B.size[:3])
+        tl = max(1e-9 * scale, 1e-12)
+        if D <= 1e-12 * B.extent():
+            # findings/C13-capsule-box-segment-meets-box.md: the routine ends in mjraw_SphereBox at one or two points of the axis; it
+            # has no candidate for a segment that meets the box.  Confirmed when every contact IS the exact contact of such a sphere
+            # (only the choice of the axis point is wrong) / nothing was found and both end-cap spheres are out of range
+            P.count("poses_capsule-box-segment-meets-box")
+            ends = lambda: min(mech.endpoint_sphere_dists(A, B))
+            okc = lambda: once("cb_c", lambda: bool(con) and all(mech.axis_sphere_contact(A, B, k["dist"], k["frame"][0], k["pos"], tl) for k in con))
+            oknc = lambda: once("cb_nc", lambda: (not con) and ends() >= mg - tl)
+
+            def okg_():
+                if gdA >= distmax - tl:
+                    return ends() >= distmax - tl
+                if abs(gdA) <= 1e-6 * scale:
+                    return False                       # witness direction not recoverable from fromto
+                return mech.axis_sphere_contact(A, B, gdA, (ftA[3:] - ftA[:3]) / gdA, 0.5 * (ftA[3:] + ftA[:3]), tl)
+            okg = lambda: once("cb_g", okg_)
+
+            def test(chk):
+                if chk == "no-contact-although-distance-below-margin":
+                    return oknc()
+                if chk == "geomDistance-differs-from-true-distance":
+                    return okg()
+                if chk == "geomDistance-differs-from-contact-dist":
+                    return okg() and okc()
+                return okc()
+            out.append(("capsule-box-segment-meets-box", test))
+        else:
+            init = mech.capsule_box_initial_bestdist(A, B, 0.0)
+            far_c, far_g = D * D >= mg + init, D * D >= distmax + init
+            if far_c or far_g:
+                # findings/C13-capsule-box-far-initial-bestdist.md: every candidate's SQUARED distance is >= D^2 and is compared with the
+                # LENGTH margin + 2*(sizes).  Confirmed when that inequality holds for the margin of the failing path, the engine found
+                # nothing there, and mj_geomDistance with a distmax large enough for D^2 < distmax + 2*(sizes) returns the true distance
+                P.count("poses_capsule-box-far-initial-bestdist")
+
+                def cf_():
+                    ft = np.zeros(6)
+                    g = S.L.call("mj_geomDistance", S.m, S.d, S.gid[0], S.gid[1], float(2 * D * D + 1.0), ft, ret="f64")
+                    return abs(g - ref["dist"]) <= tolg
+                cf = lambda: once("far_cf", cf_)
+
+                def test(chk):
+                    if chk == "no-contact-although-distance-below-margin":
+                        return far_c and not con and cf()
+                    return far_g and gdA >= distmax - tl and cf()
+                out.append(("capsule-box-far-initial-bestdist", test))
+            dets, sin2 = mech.capsule_box_edge_dets(A, B)
+            skipped = (np.abs(dets) < float(E.mjMINVAL)) & (sin2 > 1e-12)
+            if skipped.any() and allow_twin:
+                # same write-up as capsule-capsule (absolute det threshold): a segment/edge pair is skipped when
+                # size_j^2*halflength^2*sin^2 < mjMINVAL although the axes are not parallel; needs geoms below ~0.2 mm.  Confirmed when
+                # the engine found nothing and is right on the same pose with all lengths x1000 (no threshold is met there)
+                P.count("poses_capsule-box-small-absolute-threshold")
+                twin = lambda: once("twin", lambda: scaled_twin_ok(S, 1000.0, distmax))
+
+                def test(chk):
+                    if chk == "no-contact-although-distance-below-margin":
+                        return not con and twin()
+                    return gdA >= distmax - tl and twin()
+                out.append(("capsule-box-small-absolute-threshold", test))
+
+    # -- box-box inside the margin: findings/C13-box-box-separated-vertex-features.md
+    if isbox and ref["dist"] > 0 and ref.get("sat_sep", ref["dist"]) < ref["dist"] - 1e-9 * scale:
+        # nearest features are vertex-vertex / vertex-edge: the largest separating-axis gap is smaller than the Euclidean distance.
+        # Confirmed when the deepest contact's normal is one of the 15 axes, the gap along it is the largest separating-axis gap and the
+        # contact distance is that gap or the surface-to-surface distance along that axis at the clipped contact point (what a SAT
+        # routine reports); for 'no contact': GJK (mj_geomDistance) does see the true distance
+        P.count("poses_box-box-separated-vertex-features")
+        td, sat = ref["dist"], ref["sat_sep"]
+        tl = max(1e-9 * scale, 1e-12)
+
+        def okc_():
+            if not con:
+                return False
+            k0 = con[int(np.argmin([k["dist"] for k in con]))]
+            return mech.box_contact_is_sat_gap(A, B, k0["dist"], k0["frame"][0], k0["pos"], sat, tl)
+        okc = lambda: once("bb_c", okc_)
+        okg = lambda: abs(gdA - min(td, distmax)) <= tolg
+
+        def test(chk):
+            if chk == "no-contact-although-distance-below-margin":
+                return not con and okg()
+            if chk == "geomDistance-differs-from-contact-dist":
+                return okc() and okg()
+            return okc()
+        out.append(("box-box-separated-vertex-features", test))
+
+    # -- pairs whose mj_geomDistance (box-box) or contacts as well (pairs without analytic collider) come from the native GJK/EPA
+    if (isbox or ref is None) and A.kind != cx.PLANE:
+        if ccd_coincident_centres(A, B, max(ccd_tol, 1e-15)):
+            # findings/C15-gjk-coincident-centres.md: confirmed when the centres coincide within the GJK tolerance AND the engine
+            # returned |centre1 - centre2| (0 up to rounding) in both orders: the value of the first-iteration exit
+            P.count("poses_ccd-coincident-centres")
+            cd = float(np.linalg.norm(A.pos - B.pos))       # gjk() returns the norm of its initial guess centre1 - centre2
+            out.append(("ccd-coincident-centres", lambda chk: abs(gdA - cd) <= 1e-15 + 1e-12 * cd and abs(gdB - cd) <= 1e-15 + 1e-12 * cd))
+        # findings/C15-epa-from-touching-simplex.md (the defect belongs to C15; here it can only show as an inconsistency between the
+        # margin-inflated contact path and the un-inflated distance path, or between the two argument orders).  Eager: decided for
+        # every pose of these pairs from the reference alone, before any comparison
+        band = 2 * ccd_tol
+        if isbox:
+            lo = hi = ref["dist"]
+        else:
+            r_ = cx.signed_distance(A, B)
+            lo, hi = r_["lower"], (r_["upper"] if (r_["separated"] or r_["exact"]) else r_["lower"])
+        touch_gd = lo >= -band and hi <= band
+        touch_c = (not isbox) and mg > 0 and lo >= mg - band and hi <= mg + band
+        if touch_gd or touch_c:
+            P.count("poses_ccd-touching-within-tolerance")
+            out.append(("ccd-touching-within-tolerance", lambda chk: touch_gd if chk == "geomDistance-not-symmetric" else (touch_gd or touch_c)))
+    return out
+
+
+def check_pose(P, S, obs, distmax, tag, witness, tol_contact=None, tol_gd=None, sink=None, allow_twin=True):
     """all C13 checks for one observed pose; returns regime string; violations go to `sink` (list) when given"""
     c = S.c
-    mechbox = [""]
-
-    lazy = {}
+    mechs = []
 
     def viol(sig, **kw):
-        if not mechbox[0] and lazy.get("AB") is not None and "touch" not in lazy:
-            # pairs handled by the native GJK/EPA: is the true distance within ccd_tolerance of 0 (or of the margin, for contacts)?
-            lazy["touch"] = True
-            A_, B_, band, mg_ = lazy["AB"]
-            r_ = cx.signed_distance(A_, B_)
-            lo_, hi_ = r_["lower"], (r_["upper"] if (r_["separated"] or r_["exact"]) else r_["lower"])
-            if (lo_ >= -band and hi_ <= band) or (mg_ > 0 and lo_ >= mg_ - band and hi_ <= mg_ + band):
-                mechbox[0] = "ccd-touching-within-tolerance:"
-                P.count("poses_ccd-touching-within-tolerance")
-        sig = (mechbox[0] if not sig.startswith("plane-capsule-axis") else "") + sig
+        chk = sig.split(":")[0]
+        if not sig.startswith("plane-capsule-axis"):
+            for name, test in mechs:
+                if chk in LISTED[name] and test(chk):
+                    sig = name + ":" + sig
+                    break
         det = dict(witness, **{k: (v.tolist() if isinstance(v, np.ndarray) else v) for k, v in kw.items()})
         if sink is not None:
             sink.append((sig, det))
@@ -490,7 +690,6 @@ def check_pose(P, S, obs, distmax, tag, witness, tol_contact=None, tol_gd=None, 
     if isbox and ref["dist"] < 0:
         tolc = max(tolc, 0.05 * abs(ref["dist"]))       # mjc_BoxBox prefers a face axis within 5% of the best edge-edge axis
     tolg = tol_gd if tol_gd is not None else (1e-9 * scale if not isbox else max(1e-6 * ext, 10 * ccd_tol))
-    mech = ""
     if (A.kind, B.kind) == (cx.CAPSULE, cx.BOX) and tol_contact is None:
         # legacy routine: exact to ~1e-7 in general position; when the capsule is nearly parallel to a box edge (angle < 0.015 rad)
         # its segment/edge 2x2 systems degrade and the nearest pair is only approximately located (observed up to 3e-6*scale)
@@ -512,24 +711,6 @@ def check_pose(P, S, obs, distmax, tag, witness, tol_contact=None, tol_gd=None, 
         tolc += cterm
         tolg += cterm
         tolsym += cterm
-        mech = capsule_parallel_mechanism(A, B, mg, obs, kA)
-        if mech:
-            P.count("poses_" + mech.rstrip(":"))
-        mechbox[0] = mech
-    if (A.kind, B.kind) == (cx.CAPSULE, cx.BOX):
-        mechbox[0] = capsule_box_mechanism(A, B, mg, distmax)
-        if mechbox[0]:
-            P.count("poses_" + mechbox[0].rstrip(":"))
-    if isbox and ref["dist"] > 0 and ref.get("sat_sep", ref["dist"]) < ref["dist"] - 1e-9 * scale:
-        # nearest features are vertex-vertex / vertex-edge: the largest separating-axis gap is smaller than the Euclidean distance
-        mechbox[0] = "box-box-separated-vertex-features:"
-        P.count("poses_box-box-separated-vertex-features")
-    uses_ccd_gd = isbox or ref is None
-    if uses_ccd_gd and A.kind != cx.PLANE:
-        lazy["AB"] = (A, B, 2 * ccd_tol, mg)
-    if uses_ccd_gd and A.kind != cx.PLANE and ccd_coincident_centres(A, B, max(ccd_tol, 1e-15)):
-        mechbox[0] = "ccd-coincident-centres:"
-        P.count("poses_ccd-coincident-centres")
     con = obs["con"]
     regime = "none"
     gdA, gdB = (obs["gd01"], obs["gd10"]) if kA == 0 else (obs["gd10"], obs["gd01"])
@@ -540,10 +721,12 @@ def check_pose(P, S, obs, distmax, tag, witness, tol_contact=None, tol_gd=None, 
     if not (np.isfinite(gdA) and np.isfinite(gdB)):
         viol("geomDistance-not-finite:" + pairname, gd=[gdA, gdB])
         return regime
+    # listed mechanisms whose structural precondition this pose meets; each violation below is tested against them individually
+    mechs.extend(build_mechanisms(P, S, A, B, obs, ref, distmax, mg, scale, ext, tolc, tolg, con, gdA, gdB, ftA, ftB, allow_twin=allow_twin))
     P.note_max("geomdist_asym_rel", abs(gdA - gdB) / max(scale, 1e-300))
     if abs(gdA - gdB) > (tolsym if (ref is not None and not isbox) else 10 * ccd_tol + 1e-6 * ext):
         viol("geomDistance-not-symmetric:" + pairname, gd_ab=gdA, gd_ba=gdB, distmax=distmax)
-    elif gdA < distmax and gdB < distmax and ref is not None and ref["n"] is not None and ref["ncond"] > 1e-6 * ext and not mechbox[0]:
+    elif gdA < distmax and gdB < distmax and ref is not None and ref["n"] is not None and ref["ncond"] > 1e-6 * ext:
         e = max(float(np.abs(ftA[:3] - ftB[3:]).max()), float(np.abs(ftA[3:] - ftB[:3]).max()))
         if e > (1e-9 * scale if (ref is not None and not isbox) else None or 1e30):
             viol("geomDistance-fromto-not-reversed-on-swap:" + pairname, ft_ab=ftA, ft_ba=ftB)
@@ -748,8 +931,10 @@ def run_batches(ctx, module, cs, per=8, nproc=16, timeout=900):
 def run(ctx):
     build.ensure("rel")
     ctx.extra["reference_self_test"] = {"primdist": {k: float(v) for k, v in primdist.self_test(n=70).items()},
-                                        "convex": {k: float(v) for k, v in cx.self_test(n=36).items()}}
+                                        "convex": {k: float(v) for k, v in cx.self_test(n=36).items()},
+                                        "mechanisms": {k: float(v) for k, v in mech.self_test().items()}}
     bad = [k for k, v in ctx.extra["reference_self_test"]["primdist"].items() if v > 1e-9]
+    bad += [k for k, v in ctx.extra["reference_self_test"]["mechanisms"].items() if v > 1e-6]
     if bad:
         ctx.inconclusive("reference self test failed: %s" % bad)
         return
